@@ -133,6 +133,7 @@ CASES = {
     "where": lambda pd, df: df["x"].where(df["model"] == 2, 0),
     "isin": lambda pd, df: df["name"].isin(["P"]),
     "str-strip": lambda pd, df: df["name"].astype(object).str.strip().str.upper(),
+    "between": lambda pd, df: (df["resSeq"].between(5, 6), df["resSeq"].between(1, 9999).all()),
     "gt-scalar": lambda pd, df: (df["resSeq"] > 9999).any(),
     "nan-gt": lambda pd, df: float("nan") > 9999,
     "concat": lambda pd, df: pd.concat([df.iloc[:2], df.iloc[4:6]]),
